@@ -24,6 +24,7 @@ CLAIMED = {
         text=(
             'Writer/reader agreement decided statically: codec-table entries resolve to code of the named codec library and save/load use matching table roles; every metadata key read on a non-failing loader path is written by the saver side; per-chunk metadata has provenance in the chunk being written; rechunker typestate (flush and save before close, chunk numbers advance once per save); empty-chunk handling agrees on both sides. Necessary conditions of a faithful round trip; bit-identity is not decided.'
             " Added in the strengthening rounds: conservation of the rechunker (the received chunk reaches the returned list or the cache on every path, remainder merged in front, every split's left part emitted), split candidates from gaps against the running maximum of end times, streaming decompressors never truncated."
+            ' Also: zero-padded, sortable names of the per-chunk metadata files of forked savers.'
         ),
         note="Trusted: CPython ast; each codec library's compress/decompress are inverse; metadata variable naming table (metadata, md, chunk_info, c).",
         technique='sibling agreement (writer vs. reader key sets, codec family resolution), provenance of stored values, typestate path rules',
@@ -33,6 +34,7 @@ CLAIMED = {
         text=(
             'Guard dominance for merge / concatenate, exhaustive ordering-domain enumeration of the sub/superrun split against its specification, protected use of identity-less reductions (incl. the cursor idiom of the split-point search), and constructor discipline of the rechunk paths (only strict split / concatenate). That rows are preserved and split points optimal is not decided.'
             ' Added: running-maximum discipline of split_array / diff, the split protocol of Chunk.split (no use of the requested time before the actual one is known, adjacent halves), and presence-not-row-count tests for cached chunks before concatenation.'
+            ' Also: relative split indices in both rechunk loops, remainder yielded unconditionally on load, split shortcuts only at the chunk edges.'
         ),
         note='Trusted: CPython ast; numpy reductions raise on empty input.',
         technique='dominator rules, weak-ordering enumeration, reduction-site lint with cursor idiom, who-may-construct rule',
@@ -41,6 +43,7 @@ CLAIMED = {
     "C08": dict(
         text=(
             'Structure of Plugin.iter decided on its CFG: raise-instead-of-drop guards (end-of-run re-fetch, left-over buffer, premature end, inconsistent ranges, trim loop else), data flow of every split (left part to compute, right part back in front of the buffer, fetches appended), same-kind merge in both code paths, pacemaker selection and fetch-until-end loop. Exactly-once delivery as a function of data is not decided.'
+            ' Added later: merge order of same-kind inputs (depends_on order, never re-sorted) and one computation per chunk for inlined multi-output plugins.'
         ),
         note='Trusted: CPython ast; Chunk.split returns (left, right); Chunk.concatenate preserves argument order.',
         technique='guard-existence rules with dominating facts (incl. handler code), data-flow of tuple targets, sibling agreement',
@@ -67,6 +70,7 @@ CLAIMED = {
         text=(
             'Static backpressure structure: capacity gate dominates the only heap insert; in lazy mode every source advance is gated by the fetch predicate (per output in the divider); exhaustive decision table of _can_fetch; lazy only without worker pools, savers never drive, flow-freely = produced - required; demand published before waiting and withdrawn before extraction. The numeric bound per plugin graph is not decided.'
             ' Added: data-type names are never iterated as collections in the wiring code.'
+            ' Also: can_drive relayed by add_reader; plugin-declared capacity unchanged on its output mailbox.'
         ),
         note='Trusted: CPython ast; threading.Condition semantics.',
         technique='cut-set path rules for gates, decision-table extraction, wiring-argument provenance',
@@ -75,6 +79,7 @@ CLAIMED = {
     "C14": dict(
         text=(
             'Key dependence on the subrun specification, persistence of per-chunk subruns, exhaustive enumeration of the run-annotation split, order preservation of the specification from define_run through the metadata writer to the loader chain, and planning rules of the superrun branch. Equality of the concatenated rows is not decided.'
+            ' Added later: the whole subrun specification (not a projection of it) is hashed into the key.'
         ),
         note='Trusted: CPython ast; dict order survives json without sort_keys.',
         technique='provenance / who-may-construct rules, weak-ordering enumeration, order-preservation lint on serialisation, dominator rules',
@@ -84,6 +89,7 @@ CLAIMED = {
         text=(
             'Must-pass-through of sortedness checks (ValueError on failure) for both inputs of every public interval wrapper, whole-package stable-sort sweep, and ordering-domain enumeration of the containment and touching-window comparison predicates against their definitions. Kernel loop logic and numeric agreement with quadratic definitions are not decided.'
             ' Added: the break predicate of _find_break_i as a linear form (start - running max end - safe_break >= 0).'
+            ' Also: public interval functions never write into their inputs; no stale loop-locals in the kernels.'
         ),
         note='Trusted: CPython ast; numpy mergesort is stable.',
         technique='inter-procedural must-pass-through rule, package-wide call-site sweep with positive fixture, weak-ordering enumeration',
@@ -93,6 +99,7 @@ CLAIMED = {
         text=(
             'Effect (field write-set) analysis of the waveform routines, identical-slice copy rule for the reduction kernel, metadata-copy field set, and assignment coverage / threshold comparison of the hit finder. Which samples are kept and numeric field values are not decided.'
             ' Added: open-ended sample slices into neighbouring fragments only on the right side of zero; record_links links only non-first fragments that start exactly where the previous record ended and updates its per-channel bookkeeping for every record.'
+            ' Also: per-hit accumulators reset between hits; no stale loop-locals (per-channel baseline values).'
         ),
         note='Trusted: CPython ast; numpy structured-array store semantics.',
         technique='effect summaries through aliases of record arrays, write-set table, assignment coverage',
@@ -107,6 +114,7 @@ CLAIMED = {
             "executors under the parallel flag, single producer per data type in both processors, "
             "continuity guard on the user-facing iterator.  Row-for-row equality of results is not "
             "decided."
+            " Added later: delivery discipline of the single-thread processor's post office (numbering bases, whole-cache lookup by number, acknowledge-yield-advance, exhaustive decision table of _message_may_come, every message to every spy) and the saver thread's own continuity check."
         ),
         note="Trusted: CPython ast; receiver-name table distinguishing plugins from chunks; ownership reasons in sa/props/c01.py.",
         technique="ownership / who-may-write table with reaching-definition conditions, effect summaries over the class hierarchy, provenance of fan-out arguments",
@@ -121,6 +129,7 @@ CLAIMED = {
             "weak orderings, continuity guard, time-field decision table and its coverage of all "
             "plugin construction paths."
             ' Added: dtype checks compare dtype objects (not order-forgetting projections) and the memory layout, and no check compares an object with something read off that object.'
+            ' Also: dtype checks unconditional with respect to the number of rows; the saver thread checks continuity itself.'
         ),
         note="Trusted: CPython ast; numpy dtype inequality; checker discovery by role (functions that raise on data_type / dtype mismatch).",
         technique="dead-guard lint with flow-sensitive inlining, cut-set path rules, ordering-domain enumeration, decision tables",
@@ -135,6 +144,7 @@ CLAIMED = {
             "(attribute, writer, reader) pairs are recorded as known findings; any new pair is a "
             "violation."
             ' Added: work-queue rules of multi_run (one sorted sequence, cursor advanced once per submission, every finished future frees a slot) and publication of a plugin into the shared cache only after it is fully built.'
+            ' Also: arguments of the single-run branch forwarded to multi_run; temporary merge plugin removed before the first yield.'
         ),
         note="Trusted: GIL atomicity of single dict/list operations and of list()/dict()/.copy(); call graph restricted to self-calls on Context.",
         technique="lockset-style static race detection with effect summaries and alias tracking; dominator rules on multi_run",
@@ -148,6 +158,7 @@ CLAIMED = {
             "an asynchronously running saver's outcome before acting on it, ordering of verify / remove "
             "/ move in the rechunker.  Equality of the copied rows is not decided."
             ' Added: wrapper generators around loaders yield every chunk they take, a loader consumed per target is created per target, streaming decompressors are drained.'
+            ' Also: per-chunk processing refused for every transitive dependant that looks across chunks; lineage walk always reached; one stream per copy / merge target.'
         ),
         note="Trusted: CPython ast; concurrent.futures.Future API; the reviewed destructive-call table in sa/props/c16.py.",
         technique="who-may-call table with provenance and guard dominance, path-sensitive abstract interpretation, cut-set path rules",
@@ -162,6 +173,7 @@ CLAIMED = {
             "dependent), the track filter on both lineage branches, exact-vs-fuzzy match structure, and "
             "the no-save guard under fuzzy matching.  Necessary conditions of 'no stale reads after "
             "any history'; equality with a fresh-context oracle is not decided."
+            ' Added later: lineage-key agreement between lineage construction and the fuzzy_for translation, and configuration ownership (fresh dict from combine_configs, set_config rebinds, given options win in new_context).'
         ),
         note="Trusted: CPython ast; json/sha1 determinism; plugin classes are not mutated in place after registration.",
         technique="def-use / provenance comparison of cache key vs. cached value inputs; path (cut-set) rule on registry stores; determinism lint",
@@ -176,6 +188,7 @@ CLAIMED = {
             "path (exhaustive decision table for the overwrite policy), savers closed while the "
             "exception is active, failed saves recorded and re-raised."
             " Added: the temporary directory starts empty on every path; the failure is recorded in got_exception on every way out of the saver thread's handler (exception edges included)."
+            " Also: close() failures in the saver thread's finally are recorded; only DataNotAvailable is skipped while savers are created."
         ),
         note="Trusted: atomicity of os.rename; formatted_exception() non-empty iff an exception is active; CPython ast.",
         technique="provenance of path arguments, dominator / cut-set path rules, decision-table extraction, future-flow rule",
@@ -191,6 +204,7 @@ CLAIMED = {
             "catch-all handler in the pipeline modules reacts.  Liveness beyond this structure "
             "(capacity vs. plugin lag) is not decided."
             ' Added: the saver thread records its failure before anything in its handler can raise.'
+            ' Also: plugin-declared mailbox capacity honoured, kill loops reach every mailbox, closing savers on failure paths is idempotent (known finding F19 in the single-thread processor).'
         ),
         note="Trusted: generator.throw semantics; Mailbox.cleanup joins; CPython ast; callee resolution table in sa/resolve.py.",
         technique="handler-path cut-set rules on the CFG, thread-entry resolution, path-sensitive abstract interpretation, provenance of the re-raised object",
@@ -204,6 +218,7 @@ CLAIMED = {
             "and a positive policy test; scheduling only on the not-stored branch and after the "
             "availability errors; single producer per data type in both processors.  The number of "
             "compute calls at run time is not decided."
+            ' Added later: forbid_creation_of normalised before its membership tests; decision table decided through path-local bindings.'
         ),
         note="Trusted: CPython ast; the guard requirement table in sa/props/c11.py.",
         technique="finite decision-table extraction + dominator rules on guard edges + provenance of fan-out arguments",
@@ -218,6 +233,7 @@ CLAIMED = {
             "lock, end-marker ordering.  These are necessary conditions of exactly-once in-order "
             "delivery for every schedule; value arithmetic of message numbers is not decided."
             ' Added: numbering / cursor discipline (send counter and reader cursor start equal and advance by one per insert / per extracted message, queue-then-advance order, cursor-1 published, every queued message yielded) and sender loops forwarding every item exactly once.'
+            ' Also: every subscriber is registered before the mailbox is started.'
         ),
         note=(
             "Trusted: CPython ast; threading.Condition semantics; single sending thread per mailbox; "
